@@ -557,15 +557,31 @@ def rule_snapshot_before_mutation(ctx, rid, rr):
     mod = rw.module
     loops = [n for n in rw.own_nodes() if isinstance(n, ast.For) and any(
         isinstance(c, ast.Call) and isinstance(c.func, ast.Attribute) and c.func.attr == "remove_edge" for c in ast.walk(n))]
+    loops = [n for n in loops if not any(o is not n and any(o is x for x in ast.walk(n)) for o in loops)]   # innermost
     if len(loops) != 1 or not isinstance(loops[0].iter, ast.Name):
         raise AnalysisError(f"{rw.qualname}: rewiring loop over a named snapshot not found")
     lp = loops[0]
     snap = lp.iter.id
     bs = [b for b in rw.bindings.get(snap, [])]
-    nodep = rw.pos_params[1] if len(rw.pos_params) > 1 else None
+    # the node whose edges are rewired: first argument of every remove_edge of the loop
+    rm_nodes = {c.args[0].id if c.args and isinstance(c.args[0], ast.Name) else None for c in ast.walk(lp)
+                if isinstance(c, ast.Call) and isinstance(c.func, ast.Attribute) and c.func.attr == "remove_edge"}
+    nodep = rm_nodes.pop() if len(rm_nodes) == 1 else None
+    per_entry = False
+    if nodep:
+        if nodep in rw.pos_params or nodep in getattr(rw, "kwonly_params", ()):
+            per_entry = True   # the function is the per-entry step (the chain cases of this property evaluate who calls it)
+        elif len(bs) == 1 and bs[0][0] == "assign":
+            # the same iteration of a loop over the entries binds the node, takes the snapshot and rewires
+            snap_stmt = stmt_of(mod, bs[0][1])
+            for outer in [n for n in rw.own_nodes() if isinstance(n, ast.For) and n is not lp]:
+                tn = {x.id for x in ast.walk(outer.target) if isinstance(x, ast.Name)}
+                inside = {id(x) for x in ast.walk(outer)}
+                if nodep in tn and id(snap_stmt) in inside and id(lp) in inside:
+                    per_entry = True
     ok = len(bs) == 1 and bs[0][0] == "assign" and isinstance(bs[0][1], ast.Call) and is_name(bs[0][1].func, "list") and \
         isinstance(bs[0][1].args[0], ast.Call) and isinstance(bs[0][1].args[0].func, ast.Attribute) and \
-        bs[0][1].args[0].func.attr == "out_edges" and nodep and is_name(bs[0][1].args[0].args[0], nodep) and \
+        bs[0][1].args[0].func.attr == "out_edges" and nodep and per_entry and is_name(bs[0][1].args[0].args[0], nodep) and \
         any(k.arg == "keys" and getattr(k.value, "value", None) is True for k in bs[0][1].args[0].keywords)
     ctx.ob(rid, f"{rw.short}/snapshot-from-current-graph", ok, loc(rw, lp),
            "out-edge snapshot = list(graph.out_edges(node, keys=True)) taken inside the per-entry rewriting" if ok else
